@@ -197,6 +197,14 @@ class DropletBase:
     def check_data(self):
         """Method that checks the validity and consistency of self.data."""
 
+    def __getstate__(self):
+        return {"data": self.data}
+
+    def __setstate__(self, state):
+        # numpy records obtained from unpickling silently ignore assignments to their
+        # fields, so a copy is stored, which can be modified as usual
+        self.data = state["data"].copy()
+
     @property
     def _args(self):
         return {key: self.data[key] for key in self.data.dtype.names}
